@@ -84,9 +84,12 @@ static void fam_words(int kind) {
 	wl_boundary(kind);
 	for (size_t i = 0; i < WLn; i++) for (unsigned a = 0; a < 4; a++) {
 		memset(b, 0, sizeof b); word_bytes(kind, WL[i], b + a); word_bytes(kind, WL[i], b + a + 4);
+		uint8_t r1[16], r2[16]; memcpy(r1, b, 8 + a); memcpy(r2, b, 8 + a); ref_bcj(kind, 1, 0, r1, 8 + a); ref_bcj(kind, 0, 0x1000, r2, 8 + a);
+		const int converts = memcmp(r1, b, 8 + a) || memcmp(r2, b, 8 + a);
 		for (int s = 0; s < 5; s++) {
-			// complete 1-cut enumeration at the two extreme offsets, byte-at-a-time at the others (quick)
-			unsigned lv = (thorough || s == 0 || s == 4) ? LV_CUTS : LV_STEPS;
+			// complete 1-cut enumeration at the two extreme offsets, byte-at-a-time at the others; words that the
+			// filter leaves alone (quick): 1-cuts at offset 0 only
+			unsigned lv = thorough || ((s == 0 || s == 4) && converts) || (s == 0 && a == 0) ? LV_CUTS : converts ? LV_STEPS : 0;
 			do_case(f, OFFS4[s], b, 8 + a, lv);
 		}
 		if (h_expired()) return;
@@ -133,18 +136,18 @@ static void fam_batch(int kind) {
 	}
 }
 
-// ARM64, thorough: every 32-bit word once per (alignment, start offset): 2^32 words in buffers of 2^20
+// ARM64, thorough: every 32-bit word at every start offset: 2^32 words in buffers of 2^18 words
 static void fam_arm64_all(void) {
 	const filt *f = filt_by_kind(RB_ARM64); const size_t CH = 1u << 18; uint8_t *buf = malloc(CH * 4 + 8);
 	const uint32_t nchunks = (uint32_t)(((uint64_t)1 << 32) / CH);
 	for (uint32_t ci = 0; ci < nchunks; ci++) {
 		if ((int)(ci % (unsigned)nshards) != shard) continue;
-		// the combination (alignment, offset) rotates with the chunk number so that every word is seen at one
-		// combination per pass; pass p shifts the rotation: after 20 passes every word met every combination
-		for (unsigned p = 0; p < 20; p++) {
-			unsigned comb = (ci + p) % 20, a = comb % 4; uint32_t s = OFFS4[comb / 4];
+		// passes 0..4: alignment 0 (every word is seen as an instruction word) at each of the five start offsets;
+		// passes 5..7: alignments 1..3 (the filter sees straddled words) at an offset that rotates with the chunk
+		for (unsigned p = 0; p < 8; p++) {
+			unsigned a = p < 5 ? 0 : p - 4; uint32_t s = OFFS4[p < 5 ? p : (ci + p) % 5];
 			memset(buf, 0, a);
-			for (size_t i = 0; i < CH; i++) { uint32_t w = (uint32_t)((uint64_t)ci * CH + i); uint8_t *q = buf + a + 4 * i; q[0] = w; q[1] = w >> 8; q[2] = w >> 16; q[3] = w >> 24; }
+			for (size_t i = 0; i < CH; i++) { uint32_t w = (uint32_t)((uint64_t)ci * CH + ((i * 0x9E375u) & (CH - 1))); uint8_t *q = buf + a + 4 * i;	/* odd multiplier: a permutation of the chunk */ q[0] = w; q[1] = w >> 8; q[2] = w >> 16; q[3] = w >> 24; }
 			check_case(f, s, buf, a + 4 * CH, LV_NOREUSE);
 			n_words += (long)CH; n_evals += (long)CH - 1;
 			long changed = 0; for (size_t g = 0; g + 4 <= a + 4 * CH; g += 4) if (memcmp(RE + g, buf + g, 4)) changed++;
@@ -168,7 +171,7 @@ static void fam_x86(void) {
 			// all five start offsets up to length maxlen-1; the longest strings at offset 0 and 0xFFFFFFFC
 			for (int s = 0; s < 5; s++) {
 				if (len == maxlen && s != 0 && s != 4) continue;
-				do_case(f, OFFS4[s], b, (size_t)len, thorough || len < maxlen || s == 0 ? LV_CUTS : LV_STEPS);
+				do_case(f, OFFS4[s], b, (size_t)len, s == 0 || (s == 4 && len < maxlen) ? LV_CUTS : (len < maxlen || thorough) ? LV_STEPS : 0);
 			}
 			int k = len - 1; while (k >= 0 && ++d[k] == 5) d[k--] = 0;
 			if (k < 0) break;
@@ -337,6 +340,7 @@ static void fam_delta_strings(void) {
 
 // ------------------------------------------------------------------------------------------------ start_offset / distance validation
 static void fam_align(void) {
+	replay_by_family = 1;
 	uint32_t offs[400]; size_t no = 0;
 	for (uint32_t s = 0; s <= 64; s++) offs[no++] = s;
 	for (unsigned k = 7; k < 32; k++) for (int j = -1; j <= 1; j++) offs[no++] = (1u << k) + (uint32_t)j;
@@ -391,6 +395,7 @@ static size_t enum_strings(int maxlen, uint8_t (**out)[8], uint8_t **lens) {
 	*out = s; *lens = ln; return total;
 }
 static void fam_reuse(void) {
+	replay_by_family = 1;
 	const filt *f = filt_by_kind(RB_X86);
 	uint8_t (*A)[8], *AL, (*B)[8], *BL; size_t na = enum_strings(thorough ? 7 : 6, &A, &AL), nbb = enum_strings(5, &B, &BL);
 	static const uint32_t SP[3][2] = { { 0, 0 }, { 0, 4 }, { 0xFFFFFFFCu, 0 } };
@@ -399,6 +404,7 @@ static void fam_reuse(void) {
 		for (size_t j = 0; j < nbb; j++) for (int enc = 0; enc < 2; enc++) int_run(f, enc, SP[sp][1], B[j], BL[j], fresh[j][enc], &WHOLE, NULL, 0, 0);
 		for (size_t i = 0; i < na; i++) {
 			if ((int)(i % (unsigned)nshards) != shard) continue;
+			if (sp == 2 && !thorough && AL[i] > 5) continue;
 			for (int enc = 0; enc < 2; enc++) {
 				lzma_next_coder nc = LZMA_NEXT_CODER_INIT;
 				for (size_t j = 0; j < nbb; j++) {
@@ -455,6 +461,9 @@ static void fam_reuse(void) {
 }
 
 // ------------------------------------------------------------------------------------------------ public seam + system library on a sub-grid
+static int public_thin = 1;	// public-san: every 8th case of the list
+static long public_ctr;
+#define PUB_CASE(f, p, x, n, lv) do { if (public_ctr++ % public_thin == 0) do_case(f, p, x, n, lv); } while (0)
 static void fam_public(void) {
 	uint8_t b[64];
 	// word filters: every opcode value x {0, 1, max, sign boundary} displacement, alignments 0..3, two offsets
@@ -464,7 +473,7 @@ static void fam_public(void) {
 		const size_t stride = thorough ? 3 : 29;		// fixed sub-list of the sorted boundary list: every stride-th word
 		for (size_t i = 0; i < WLn; i += stride) for (unsigned a = 0; a < 4; a += (thorough ? 1 : 3)) {
 			memset(b, 0, sizeof b); word_bytes(WK[k], WL[i], b + a); word_bytes(WK[k], WL[i], b + a + 4);
-			do_case(f, OFFS4[(i / stride) % 5], b, 8 + a, LV_PUBLIC | LV_SYS | LV_STEPS);
+			PUB_CASE(f, OFFS4[(i / stride) % 5], b, 8 + a, LV_PUBLIC | LV_SYS | LV_STEPS);
 		}
 		if (h_expired()) return;
 	}
@@ -472,19 +481,19 @@ static void fam_public(void) {
 	{ const filt *f = filt_by_kind(RB_X86); int d[16];
 	for (int len = 0; len <= (thorough ? 7 : 6); len++) { memset(d, 0, sizeof d);
 		for (;;) { for (int i = 0; i < len; i++) b[i] = XA[d[i]];
-			do_case(f, OFFS4[(d[0] + len) % 5], b, (size_t)len, LV_PUBLIC | LV_STEPS);
+			PUB_CASE(f, OFFS4[(d[0] + len) % 5], b, (size_t)len, LV_PUBLIC | LV_STEPS);
 			int q = len - 1; while (q >= 0 && ++d[q] == 5) d[q--] = 0; if (q < 0) break; } } }
 	// RISC-V pairs (every 3rd pair of the domain), IA-64 bundles, delta
 	{ const filt *f = filt_by_kind(RB_RISCV); rv_domain(); size_t c = 0;
 	for (size_t i = 0; i < RVn; i++) for (size_t j = 0; j < RVn; j++, c++) { if (c % (thorough ? 5 : 41)) continue;
 		memset(b, 0, sizeof b); for (int q = 0; q < 4; q++) { b[q] = RV[i] >> (8 * q); b[4 + q] = RV[j] >> (8 * q); }
-		do_case(f, OFFS4[c % 5], b, 16, LV_PUBLIC | LV_STEPS); } }
+		PUB_CASE(f, OFFS4[c % 5], b, 16, LV_PUBLIC | LV_STEPS); } }
 	{ const filt *f = filt_by_kind(RB_IA64); uint32_t bs[200]; size_t nb = bset(21, bs);
 	for (unsigned t = 0; t < 32; t++) for (int sl = 0; sl < 3; sl++) for (size_t i = 0; i < nb; i += (thorough ? 1 : 4)) {
 		int kind[3] = { 1, 1, 1 }; uint32_t imm[3] = { 0, 0, 0 }; imm[sl] = bs[i]; mk_bundle(b, t, kind, imm, (int)(i & 1)); mk_bundle(b + 16, t, kind, imm, 0);
-		do_case(f, OFFS16[(t + i) % 5], b, 35, LV_PUBLIC | LV_SYS | LV_STEPS); } }
+		PUB_CASE(f, OFFS16[(t + i) % 5], b, 35, LV_PUBLIC | LV_SYS | LV_STEPS); } }
 	{ const filt *f = filt_by_name("delta"); static uint8_t db[700];
-	for (uint32_t d = 1; d <= 256; d++) for (int c = 0; c < 4; c++) { size_t n = (d * 5 + 17 * (size_t)c) % 601; delta_fill(db, n, c); do_case(f, d, db, n, LV_PUBLIC | LV_SYS | LV_STEPS); } }
+	for (uint32_t d = 1; d <= 256; d++) for (int c = 0; c < 4; c++) { size_t n = (d * 5 + 17 * (size_t)c) % 601; delta_fill(db, n, c); PUB_CASE(f, d, db, n, LV_PUBLIC | LV_SYS | LV_STEPS); } }
 }
 // big buffers (the batch lists) through the public seam and the system library
 static void fam_public_batch(void) {
@@ -531,6 +540,7 @@ static int block_payloads(const uint8_t *xz, size_t xzn, const filt *f, uint32_t
 	return nb;
 }
 static void fam_multiblock(void) {
+	replay_by_family = 1;
 	static uint8_t plain[4096], xz[1 << 16], pay[1 << 16], back[4096], want[4096];
 	static const uint8_t SEED[4][12] = {
 		{ 0xE8, 0x00, 0x00, 0x00, 0x00, 0xE8, 0xFF, 0xFF, 0xFF, 0xFF, 0xE8, 0x7F },
@@ -605,6 +615,7 @@ static int run_family(const char *name) {
 	if (!strcmp(name, "align")) { fam_align(); return 1; }
 	if (!strcmp(name, "reuse")) { fam_reuse(); return 1; }
 	if (!strcmp(name, "public")) { fam_public(); return 1; }
+	if (!strcmp(name, "public-san")) { public_thin = 8; fam_public(); return 1; }
 	if (!strcmp(name, "public-batch")) { fam_public_batch(); return 1; }
 	if (!strcmp(name, "multiblock")) { fam_multiblock(); return 1; }
 	return 0;
